@@ -604,6 +604,25 @@ def main():
 
     body_def("bulkFetcherShape", ": Bool", bulk_fetcher_shape_builder, "false")
 
+    def engine_ids_builder():
+        # V3MPM.encode: the security engine id is the DISCOVERED one (timing, request generation); the
+        # caller's engine id is the CONTEXT engine id and defaults to the discovered one when empty
+        from puresnmp_plugins.mpm import v3 as MV3
+
+        fn = func_ast(MV3.V3MPM.encode)
+        text = [ast.unparse(x) for x in ast.walk(fn) if isinstance(x, (ast.Assign, ast.If, ast.Call))]
+        ok = "security_engine_id = self.disco.authoritative_engine_id" in text
+        ok = ok and any(t.replace("\n", " ").split() == "if engine_id == b'': engine_id = security_engine_id".split() for t in text)
+        gen = [t for t in text if t.startswith("self.security_model.generate_request_message(")]
+        ok = ok and len(gen) == 1 and gen[0].replace(" ", "") == "self.security_model.generate_request_message(msg,security_engine_id,credentials)"
+        tim = [t for t in text if t.startswith("self.security_model.set_engine_timing(")]
+        ok = ok and len(tim) == 1 and tim[0].replace(" ", "").startswith("self.security_model.set_engine_timing(self.disco.authoritative_engine_id,")
+        sc = [t for t in text if t.startswith("ScopedPDU(")]
+        ok = ok and len(sc) == 1 and sc[0].replace(" ", "") == "ScopedPDU(OctetString(engine_id),OctetString(context_name),pdu)"
+        return "true" if ok else "false"
+
+    body_def("securityEngineIsDiscovered", ": Bool", engine_ids_builder, "false")
+
     # ---- reflected data --------------------------------------------------------------
     def fact(name, typ, builder, stub):
         try:
